@@ -91,6 +91,8 @@ class ProcWorld:
                  pin_digits_first=0):
         global _PINRANDOM
         install()
+        import socket as _socket
+        _socket.setdefaulttimeout(None)      # process-wide state a previous run may have left behind
         self.ch = ch
         self.platform = platform
         self.log = EventLog()
